@@ -329,6 +329,9 @@ def pred_formula(facts, summ, key):
     if isinstance(key, tuple) and key[0] == "bytes":
         # a predicate over the UTF-8 bytes of the text: see the `bytepred` node of charset()
         return ("bytepred", pred_formula(facts, summ, key[1]))
+    if key not in facts.bodies and (key in CHAR_PREDS or key.startswith("core::num::<impl u8>::is_ascii")):
+        # a std predicate passed as a fn item (`any(char::is_uppercase)`): the table entry applied to the element
+        return ("p", key, (CPARAM,))
     f = summ.summary(key)
     idx = 2 if facts.bodies[key].kind == "closure" else 1
     return subst_formula(f, {idx: CPARAM})
